@@ -441,7 +441,7 @@ Qed.
 Lemma parse_enc s : wf_inv s = true ->
   parse_inventory (enc_inventory s) = Ok (Some (view_inventory s)).
 Proof.
-  unfold wf_inv. intros H.
+  unfold wf_inv, wf_inv_gen. intros H.
   apply andb_prop in H as [H Hst]. apply andb_prop in H as [H Hmr]. apply andb_prop in H as [H Hpr].
   apply andb_prop in H as [H Hbd]. apply andb_prop in H as [H Hch]. apply andb_prop in H as [_ Hint].
   apply Nat.eqb_eq in Hint. clear Hst.
